@@ -512,18 +512,22 @@ def split_cases(rng, n):
         k = min(len(cand), rng.choice([1, 2, 3, 4]))
         cuts = sorted(set(rng.sample(cand, k)), key=lambda c: (c[1], -1, -1) if c[0] == "folder" else c[1:])
         nparts = len(cuts) + 1
-        names = [(b"part%d.cab" % (q + 1), rng.choice([b"", b"Disk %d" % (q + 1)])) for q in range(nparts)]
+        # the names the parts carry in their headers; on disk the files may differ from them in letter case (a set copied
+        # from a case-insensitive medium): cabextract looks the neighbours up without regard to case
+        mixed = rng.random() < 0.5
+        names = [((b"Part%d.CAB" if mixed else b"part%d.cab") % (q + 1), rng.choice([b"", b"Disk %d" % (q + 1)])) for q in range(nparts)]
         try:
             cabs = vcab.build_set(folders, files_of(plan), cuts, names, set_id=rng.getrandbits(16))
         except Exception:
             continue
         if any(struct.unpack_from("<H", cb, 28)[0] == 0 for cb in cabs):
             continue        # a part without any file entry (cut behind the last member's data) is not a well-formed cabinet
-        files = {names[q][0].decode(): cabs[q] for q in range(nparts)}
+        disk = [b"part%d.cab" % (q + 1) for q in range(nparts)]
+        files = {disk[q].decode(): cabs[q] for q in range(nparts)}
         STATS["plans"] += 1
         for start in range(nparts):
             msgs = b""
-            me = names[start][0]
+            me = disk[start]
             for q in range(start - 1, -1, -1):
                 msgs += me + b": extends backwards to " + names[q][0] + b" (" + names[q][1] + b")\n"
             for q in range(start + 1, nparts):
@@ -536,12 +540,12 @@ def split_cases(rng, n):
             yield Case("split", files, [me], [plan["members"]], opts, pats, umask, dest, chain_msgs=msgs, desc=f"set of {nparts} parts, cuts {[c[0] for c in cuts]}, started from part {start + 1}")
         # -s with every part on the command line, in a shuffled order: the members once
         order = list(range(nparts)); rng.shuffle(order)
-        first = order[0]; me = names[first][0]
+        first = order[0]; me = disk[first]
         msgs = b""
         for q in range(first - 1, -1, -1): msgs += me + b": extends backwards to " + names[q][0] + b" (" + names[q][1] + b")\n"
         for q in range(first + 1, nparts): msgs += me + b": extends to " + names[q][0] + b" (" + names[q][1] + b")\n"
-        skipped = b"".join(names[q][0] + b": skipping known cabinet (from " + me + b")\n" for q in order[1:])
-        yield Case("split-s", files, [names[q][0] for q in order], [plan["members"]], ["-s"], [], 0o022, "out", chain_msgs=msgs, skipped_msgs=skipped, desc=f"-s with all {nparts} parts named, order {order}")
+        skipped = b"".join(disk[q] + b": skipping known cabinet (from " + me + b")\n" for q in order[1:])
+        yield Case("split-s", files, [disk[q] for q in order], [plan["members"]], ["-s"], [], 0o022, "out", chain_msgs=msgs, skipped_msgs=skipped, desc=f"-s with all {nparts} parts named, order {order}")
 
 def fail_cases(rng, n):
     for i in range(n):
